@@ -431,21 +431,27 @@ def r5_continuity(chk, repo, rule="C12.R5"):
         chk.check(ok and ("call:iter" in prov or ".iter" in prov), rule, gi, lp, "get_iter consumes the processor output without the continuity check (overlapping or gapped chunks would be returned as valid)", site_text="get_iter: iterates strax.continuity_check(<processor>.iter())")
     cc = repo.func("continuity_check", CHUNK)
     cfg = cfg_of(cc)
-    rs = [n for n in cfg.stmt_nodes() if isinstance(n.stmt, ast.Raise) and (("chunk.start != last_end", True) in cfg.guard_facts(n))]
-    chk.check(bool(rs), rule, cc, None, "continuity_check no longer raises on start != previous end", site_text="continuity_check: raise on chunk.start != last_end")
+    from ..pattern import facts_matching, find as _pf
+    rs, LE, CH = [], None, None
+    for n in cfg.stmt_nodes():
+        if isinstance(n.stmt, ast.Raise):
+            for e, pol, g, b in facts_matching(cfg, n, "L_c.start != L_le", True):
+                rs.append(n)
+                LE, CH = b["L_le"], b["L_c"]
+    chk.check(bool(rs), rule, cc, None, "continuity_check no longer raises on start != previous end", site_text="continuity_check: raise on chunk.start != previous end")
     ys = [n for n in cfg.stmt_nodes() if not isinstance(n.stmt, COMPOUND) and any(isinstance(x, ast.Yield) for x in ast.walk(n.stmt))]
     for y in ys:
         dom = cfg.dominators("n")
-        owners = [cfg.node_of(enclosing(r_.stmt, (ast.If,))) for r_ in rs if enclosing(r_.stmt, (ast.If,)) is not None]
         outer = []
         for r_ in rs:
             o = enclosing(r_.stmt, (ast.If,))
-            while o is not None and enclosing(o, (ast.If,)) is not None and enclosing(enclosing(o, (ast.If,)), (ast.For,)) is enclosing(y.stmt, (ast.For,)) and enclosing(o, (ast.If,)) is not None and "last_end" in norm(enclosing(o, (ast.If,)).test):
+            while o is not None and enclosing(o, (ast.If,)) is not None and enclosing(enclosing(o, (ast.If,)), (ast.For,)) is enclosing(y.stmt, (ast.For,)) and LE in norm(enclosing(o, (ast.If,)).test):
                 o = enclosing(o, (ast.If,))
             outer.append(cfg.node_of(o))
-        chk.check(any(o in dom[y] for o in outer), rule, cc, y.stmt, "chunk is yielded before the continuity test", site_text="continuity_check: test dominates the yield")
-    upd = [n for n in cfg.stmt_nodes() if isinstance(n.stmt, ast.Assign) and any(norm(t) == "last_end" for t in n.stmt.targets) and norm(n.stmt.value) == "chunk.end"]
-    chk.check(bool(upd), rule, cc, None, "previous end is not updated from the yielded chunk", site_text="continuity_check: last_end = chunk.end")
+        yv = [x.value for x in ast.walk(y.stmt) if isinstance(x, ast.Yield)]
+        chk.check(any(o in dom[y] for o in outer) and all(v is not None and norm(v) == CH for v in yv), rule, cc, y.stmt, "chunk is yielded before the continuity test", site_text="continuity_check: test dominates the yield of the tested chunk")
+    upd = [n for n in cfg.stmt_nodes() if LE and isinstance(n.stmt, ast.Assign) and any(norm(t) == LE for t in n.stmt.targets) and norm(n.stmt.value) == f"{CH}.end"]
+    chk.check(bool(upd), rule, cc, None, "previous end is not updated from the yielded chunk", site_text="continuity_check: previous end = chunk.end")
 
 
 # ------------------------------------------------------------------------------------ R6
